@@ -8,7 +8,7 @@ from ..sessions import SessionSim
 PROP = 'C12'
 LEVEL = 'exploration'
 ORACLES = ['installed']
-RULE = ("one run = seeded universe of lexicons with partially overlapping ILIs from a pool of 3-6 (several synsets per ILI, synsets with no/proposed ILI), Requires on installed and never-installed lexicons + seeded history in which providers are installed, missing, arrive later or are removed; after every op up to 5 sessions with expand in {default, '', one, two, '*'}; oracle: expanded_lexicons == documented rule, WnWarning iff a declared dependency is missing (naming it), and for every synset of single-lexicon and default-mode sessions get_related/relations/relation_map == own relations followed by the model's ILI mapping (many-to-many, placeholders, dropped ILI-less targets). distinct = event digests; non-trivial = at least one borrowed relation was checked")
+RULE = ("long-lived default-mode Wordnets (up to 3) are re-queried through the same object after every later addition; 3% hub worlds (k=40..300 children, extensions arriving later); one run = seeded universe of lexicons with partially overlapping ILIs from a pool of 3-6 (several synsets per ILI, synsets with no/proposed ILI), Requires on installed and never-installed lexicons + seeded history in which providers are installed, missing, arrive later or are removed; after every op up to 5 sessions with expand in {default, '', one, two, '*'}; oracle: expanded_lexicons == documented rule, WnWarning iff a declared dependency is missing (naming it), and for every synset of single-lexicon and default-mode sessions get_related/relations/relation_map == own relations followed by the model's ILI mapping (many-to-many, placeholders, dropped ILI-less targets). distinct = event digests; non-trivial = at least one borrowed relation was checked")
 SESSION_ORACLES = tuple('expand'.split(','))
 
 
